@@ -306,6 +306,11 @@ func confirm(st *ekit.Stats, input string, run func() []viol) {
 	}
 	again := map[string]int{}
 	for i := 0; i < 3; i++ {
+		if st.OutOfTime() {
+			st.Count("unconfirmed-out-of-time")
+			st.Cap("time budget: a failing case could not be re-run 3 times")
+			return
+		}
 		seen := map[string]bool{}
 		for _, v := range run() {
 			if !seen[v.sig] {
@@ -847,29 +852,33 @@ func (r *sockRec) history() string {
 // after the sockets were closed; "eventually" parts are polled.
 func (r *sockRec) finalChecks() {
 	c := r.c
-	for _, pr := range r.recs() {
-		pr := pr
-		get := func() (a, at, de, add, ok, rem int, cia, ref bool) {
-			r.mu.Lock()
-			defer r.mu.Unlock()
-			return pr.nAttaching, pr.nAttached, pr.nDetached, pr.nAdd, pr.nAddOK, pr.nRem, pr.closedInAttaching, pr.refused
+	recs := r.recs()
+	get := func(pr *pipeRec) (a, at, de, add, ok, rem int, cia, ref bool) {
+		r.mu.Lock()
+		defer r.mu.Unlock()
+		return pr.nAttaching, pr.nAttached, pr.nDetached, pr.nAdd, pr.nAddOK, pr.nRem, pr.closedInAttaching, pr.refused
+	}
+	// Detached exactly once iff Attached was (or is being) reported: one watchdog
+	// window for all pipes of the socket to settle.
+	eventually(func() bool {
+		for _, pr := range recs {
+			_, at, de, _, ok, rem, _, _ := get(pr)
+			if at != de || (r.spied && ok != rem) {
+				return false
+			}
 		}
-		// Detached exactly once iff Attached was (or is being) reported.
-		settled := eventually(func() bool {
-			_, at, de, _, ok, rem, _, _ := get()
-			return at == de && (!r.spied || ok == rem)
-		})
-		a, at, de, add, ok, rem, cia, ref := get()
+		return true
+	})
+	for _, pr := range recs {
+		a, at, de, add, ok, rem, cia, ref := get(pr)
 		if a != 1 {
 			c.vs.add("fail", c.sig("attaching-count"), "%v: Attaching reported %d times; %s", pr, a, r.history())
 		}
-		if !settled || at != de {
-			switch {
-			case at > 0 && de == 0:
-				c.vs.add("fail", c.sig("attached-never-detached"), "%v: Attached was reported, the socket is closed, Detached was not reported within %v; %s", pr, watchdog, r.history())
-			case de > 0 && at == 0:
-				c.vs.add("fail", c.sig("detached-never-attached"), "%v: Detached was reported, Attached never was; %s", pr, r.history())
-			}
+		switch {
+		case at > 0 && de == 0:
+			c.vs.add("fail", c.sig("attached-never-detached"), "%v: Attached was reported, the socket is closed, Detached was not reported within %v; %s", pr, watchdog, r.history())
+		case de > 0 && at == 0:
+			c.vs.add("fail", c.sig("detached-never-attached"), "%v: Detached was reported, Attached never was (waited %v); %s", pr, watchdog, r.history())
 		}
 		if (cia || ref) && (at > 0 || de > 0) {
 			c.vs.add("fail", c.sig("unattached-pipe-has-events"), "%v was closed during Attaching (%v) / refused by the protocol (%v) and has Attached=%d Detached=%d; %s", pr, cia, ref, at, de, r.history())
@@ -889,17 +898,27 @@ func (r *sockRec) finalChecks() {
 // live pipe legitimately got it in the meantime).
 func (r *sockRec) idsReleased() {
 	c := r.c
-	for _, pr := range r.recs() {
-		pr := pr
+	recs := r.recs()
+	for _, pr := range recs {
 		regLeave(pr) // nothing of this case is live any more
-		free := func() bool {
-			if !core.VerifPipeIDUsed(pr.id) {
-				return true
-			}
-			h := regHolder(pr.id)
-			return h != nil && h != pr
+	}
+	free := func(pr *pipeRec) bool {
+		if !core.VerifPipeIDUsed(pr.id) {
+			return true
 		}
-		if !eventually(free) {
+		h := regHolder(pr.id)
+		return h != nil && h != pr
+	}
+	eventually(func() bool {
+		for _, pr := range recs {
+			if !free(pr) {
+				return false
+			}
+		}
+		return true
+	})
+	for _, pr := range recs {
+		if !free(pr) {
 			c.vs.add("fail", c.sig("id-not-released"), "%v: the id is still allocated %v after every socket of the case was closed; %s", pr, watchdog, r.history())
 		}
 	}
